@@ -22,7 +22,8 @@ TYP = {
 }
 
 NAMES = [["alpha", "dataset_name", "a", "lr"], ["beta", "tfds_dir", "b", "momentum"], ["gamma_", "k", "c", "as_numpy"],
-         ["delta", "n_steps", "d", "eps"]]
+         ["delta", "n_steps", "d", "eps"], ["epsilon", "data_loader", "e", "decay"], ["zeta", "log_dir", "f", "nesterov"],
+         ["eta", "batch_size", "g", "clip"], ["theta", "n_epochs", "h", "amsgrad"]]
 
 INT_POS = [5, 1, 42, 100]
 INT_NEG = [-3, -1, -42]
